@@ -214,3 +214,33 @@ func VerifBoltClear(s *BoltStore) error {
 		return err
 	})
 }
+
+// VerifCaps returns the capacity of the queue behind each arm.
+func (c *Client) VerifCaps() [VerifArms]int {
+	return [VerifArms]int{cap(c.outpipe), cap(c.seginpipe), cap(c.segfetch), cap(c.segcheck)}
+}
+
+// VerifGrowQueues replaces outpipe, seginpipe and segfetch by channels with `extra` more slots
+// holding the same items in the same order. The harness keeps the ORIGINAL capacities as the
+// logical ones and compares the queue lengths with them after every operation: a send that the
+// production client would have blocked on becomes an observable overflow instead of a hung
+// harness goroutine. Every send on these three channels in the package is a plain blocking send
+// (capacity is not otherwise observable); segcheck, which is sent to with select/default, is left
+// alone.
+func (c *Client) VerifGrowQueues(extra int) {
+	out := make(chan ExpressRArgs, cap(c.outpipe)+extra)
+	for n := len(c.outpipe); n > 0; n-- {
+		out <- <-c.outpipe
+	}
+	c.outpipe = out
+	in := make(chan rrSegHandleDataArgs, cap(c.seginpipe)+extra)
+	for n := len(c.seginpipe); n > 0; n-- {
+		in <- <-c.seginpipe
+	}
+	c.seginpipe = in
+	f := make(chan *ConsumeState, cap(c.segfetch)+extra)
+	for n := len(c.segfetch); n > 0; n-- {
+		f <- <-c.segfetch
+	}
+	c.segfetch = f
+}
